@@ -551,6 +551,58 @@ def c04(text, loader_name, named):
 
 HANDLERS.update({'c01': c01, 'c04': c04})
 
+# ---------------------------------------------------------------------------------------------------------------
+# C13 / C14: identity and mapping rules, against oracles computed from the generator's AST (tools/cgen.py)
+# ---------------------------------------------------------------------------------------------------------------
+def c13(text, ast, expect, loader_name):
+    import yaml, signal
+    from tools import cgen
+    L = getattr(yaml, loader_name, None)
+    if L is None: return dict(bad=[], outcome='no_class')
+    signal.signal(signal.SIGALRM, _alarm); signal.alarm(20)
+    try:
+        if text.startswith('--- '): obj = list(yaml.load_all(text, Loader=L))
+        else: obj = yaml.load(text, Loader=L)
+        got = 'ok'
+    except yaml.YAMLError as e: got = type(e).__name__
+    except RecursionError: got = 'RecursionError'
+    except _Hang: got = 'hang'
+    except Exception as e: got = 'CRASH ' + type(e).__name__
+    finally: signal.alarm(0)
+    bad = []
+    if got != expect:
+        bad.append(dict(kind='anchor_rule', what='%s: expected %s, got %s' % (loader_name, expect, got), loader=loader_name, exc=got.replace('CRASH ', '')))
+    elif got == 'ok':
+        def tup(n): return n          # lists after the JSON round trip; check13 only indexes
+        r = cgen.check13(ast, obj)
+        if r: bad.append(dict(kind='identity', what='%s: %s' % (loader_name, r), loader=loader_name))
+    return dict(bad=bad, outcome=got)
+
+def c14(text, expect_kind, exp_canon, exp_ordered, loader_name):
+    import yaml
+    from tools.values import show
+    L = getattr(yaml, loader_name, None)
+    if L is None: return dict(bad=[], outcome='no_class')
+    try:
+        obj = yaml.load(text, Loader=L); got = 'ok'
+    except yaml.YAMLError as e: got = type(e).__name__
+    except RecursionError: got = 'RecursionError'
+    except Exception as e: got = 'CRASH ' + type(e).__name__
+    bad = []
+    if got != expect_kind:
+        bad.append(dict(kind='shape_rule', what='%s: expected %s, got %s' % (loader_name, expect_kind, got), loader=loader_name, exc=got.replace('CRASH ', '')))
+    elif got == 'ok':
+        a = show(obj, canon=True, ident=False)
+        if a != exp_canon:
+            k = 0
+            while k < min(len(a), len(exp_canon)) and a[k] == exp_canon[k]: k += 1
+            bad.append(dict(kind='merge_rule', what='%s: loaded %r, the YAML 1.1 mapping/merge rules give %r (canonical offset %d)' % (loader_name, a[max(0, k - 40):k + 40], exp_canon[max(0, k - 40):k + 40], k), loader=loader_name))
+        elif exp_ordered is not None and show(obj, ident=False) != exp_ordered:
+            bad.append(dict(kind='key_order', what='%s: key order differs from document order' % loader_name, loader=loader_name))
+    return dict(bad=bad, outcome=got)
+
+HANDLERS.update({'c13': c13, 'c13m': c13, 'c14': c14})
+
 def handle(case):
     return HANDLERS[case[0]](*case[1:])
 
